@@ -312,6 +312,19 @@ class CallMixin:
             rt = parse_type(spec.get("returns", "any"))
             recv = getattr(cb, "recv", None)
             ins = ([self.inject(recv)] if recv is not None else []) + [self.inject(a) for a in args]
+            if spec.get("partial"):
+                ok = z3.Function(spec["function"] + "#ok", *([AnySort] * len(ins)), z3.BoolSort())(*ins)
+                if not run.decide(ok, f"{spec['function']} succeeds"):
+                    raise E.PyExc(VExc(spec["partial"]), f"{spec['function']}")
+            if rt[0] == "opt":
+                isn = z3.Function(spec["function"] + "#none", *([AnySort] * len(ins)), z3.BoolSort())(*ins)
+                if run.decide(isn, f"{spec['function']} is None"):
+                    return NONE
+                rt = rt[1]
+            if rt[0] == "tuple":
+                return VTuple([self.wrap(t_ if t_[0] != "list" else ("any",), z3.Function(f"{spec['function']}#{i_}", *([AnySort] * len(ins)),
+                               self.sort_of(t_ if t_[0] != "list" else ("any",)))(*ins)) if t_[0] != "list" else
+                               self.fresh(t_, f"{spec['function']}#{i_}({','.join(str(x) for x in ins)})"[:150]) for i_, t_ in enumerate(rt[1:])])
             f = z3.Function(spec["function"], *([AnySort] * len(ins)), self.sort_of(rt))
             return self.wrap(rt, f(*ins))
         self.fire("callback", cb, args, kwargs, node, frame)
